@@ -479,21 +479,37 @@ Proof.
     unfold hput, hget. cbn [r_hashes r_queue]. rewrite nget_set_same. reflexivity.
 Qed.
 
-Lemma r_load_loop_run s now ids acc :
-  run rexec (r_load_loop (map KId ids) now acc) s =
+(* the announcement list key, wherever KEYS lists it, is skipped *)
+Lemma r_load_loop_run s now ids qs acc :
+  Forall (fun k => k = KQueue) qs ->
+  run rexec (r_load_loop (map KId ids ++ qs) now acc) s =
   (s, RLoad (rev acc ++ map (fun id => (odef now (h_ts (hget s id)), id)) ids)).
 Proof.
-  revert acc; induction ids as [|id ids IH]; intros acc; cbn [map r_load_loop run].
-  - rewrite app_nil_r. reflexivity.
-  - cbn [rexec]. destruct (h_ts (hget s id)) as [t|]; rewrite IH; cbn [rev odef rkey_id];
+  intros Hq. revert acc; induction ids as [|id ids IH]; intros acc; cbn [map app r_load_loop].
+  - rewrite app_nil_r. induction Hq as [|k qs -> _ IHq]; cbn [r_load_loop run]; [reflexivity|exact IHq].
+  - cbn [run rexec]. destruct (h_ts (hget s id)) as [t|]; rewrite IH; cbn [rev odef];
       rewrite <- app_assoc; reflexivity.
 Qed.
+
+Lemma redis_load_run s now :
+  run rexec (redis_prog (OLoad now)) s =
+  (s, RLoad (map (fun id => (odef now (h_ts (hget s id)), id)) (akeys (r_hashes s)))).
+Proof.
+  cbn [redis_prog run rexec]. rewrite r_load_loop_run; [reflexivity|].
+  destruct (r_queue s); repeat constructor.
+Qed.
+
+(* load() does not depend on the announcement list (and leaves it alone) *)
+Lemma redis_load_queue_independent s q now :
+  snd (run rexec (redis_prog (OLoad now)) (mkRedis (r_hashes s) q)) = snd (run rexec (redis_prog (OLoad now)) s) /\
+  fst (run rexec (redis_prog (OLoad now)) s) = s.
+Proof. rewrite !redis_load_run. split; reflexivity. Qed.
 
 Lemma redis_step_sim s r o :
   RRedis s r -> wf_op r o = true ->
   RRedis (fst (redis_step s o)) (fst (ref_step r o)) /\ res_match (snd (redis_step s o)) (snd (ref_step r o)).
 Proof.
-  intros H Hwf. destruct o; cbn [redis_step redis_prog ref_step].
+  intros H Hwf. destruct o; unfold redis_step; cbn [redis_prog ref_step].
   - (* write *)
     rewrite (r_write_run s r e ts cands H).
     destruct (first_free r cands) as [id|] eqn:Ef; cbn [fst snd]; [|split; [exact H|reflexivity]].
@@ -536,19 +552,17 @@ Proof.
     exists e, ts0, att, (Some (accum_mark (odef [] dl) idxs)). split.
     + destruct dl; reflexivity.
     + cbn [odef]. rewrite (accum_entry_mark e ts0 _ _ en idxs l Ha Hl). rewrite Hts, Hatt. reflexivity.
-  - (* load, announcements consumed *)
-    cbn [run rexec redis_drain r_hashes r_queue app]. rewrite app_nil_r, r_load_loop_run. cbn [fst snd rev app].
-    split.
-    + split; [apply (rr_ref s r H)|apply (rr_nodup s r H)|].
-      intros id. eapply redis_rep_other; [| |apply (rr_rep s r H id)]; reflexivity.
-    + cbn [res_match]. apply load_perm_ids; [apply (rr_nodup s r H)|apply (rr_ref s r H)| |].
-      * intros id. pose proof (rr_rep s r H id) as Hr. unfold redis_rep, rlookup in Hr.
-        rewrite <- nget_keys. cbn [r_hashes]. destruct (alookup N.eqb r id) as [en|].
-        -- destruct Hr as (e & ts0 & att & dl & Hh & _). split; [discriminate|intros _; congruence].
-        -- rewrite Hr. tauto.
-      * intros id en E. pose proof (rr_rep s r H id) as Hr. unfold redis_rep, rlookup in Hr. rewrite E in Hr.
-        destruct Hr as (e & ts0 & att & dl & Hh & Ha). unfold hget, redis_drain. cbn [r_hashes]. rewrite Hh. cbn [h_ts odef].
-        destruct (accum_entry_fields _ _ _ _ _ Ha) as [Hts _]. congruence.
+  - (* load, whatever is on the announcement list *)
+    pose proof (redis_load_run s now) as El. cbn [redis_prog] in El. rewrite El. clear El.
+    cbn [fst snd]. split; [exact H|].
+    cbn [res_match]. apply load_perm_ids; [apply (rr_nodup s r H)|apply (rr_ref s r H)| |].
+    + intros id. pose proof (rr_rep s r H id) as Hr. unfold redis_rep, rlookup in Hr.
+      rewrite <- nget_keys. destruct (alookup N.eqb r id) as [en|].
+      * destruct Hr as (e & ts0 & att & dl & Hh & _). split; [discriminate|intros _; congruence].
+      * rewrite Hr. tauto.
+    + intros id en E. pose proof (rr_rep s r H id) as Hr. unfold redis_rep, rlookup in Hr. rewrite E in Hr.
+      destruct Hr as (e & ts0 & att & dl & Hh & Ha). unfold hget. rewrite Hh. cbn [h_ts odef].
+      destruct (accum_entry_fields _ _ _ _ _ Ha) as [Hts _]. congruence.
   - (* get *)
     pose proof (rr_rep s r H id) as Hr. unfold redis_rep in Hr.
     cbn [run rexec fst snd]. destruct (rlookup r id) as [en|] eqn:E.
@@ -580,6 +594,59 @@ Proof.
   apply (run_sim rstate redis_step RRedis (fun _ _ => True)); try assumption.
   - intros s0 r0 o H1 H2 _. apply redis_step_sim; assumption.
   - apply oks_true.
+Qed.
+
+(* wait() only pops the announcement list: the hashes, hence every view and
+   every later answer, are untouched *)
+Lemma redis_wait_hashes s : r_hashes (fst (run rexec redis_wait s)) = r_hashes s.
+Proof. cbn [redis_wait run rexec]. destruct (r_queue s) as [|x q]; reflexivity. Qed.
+
+Lemma RRedis_wait s r : RRedis s r -> RRedis (fst (run rexec redis_wait s)) r.
+Proof.
+  intros H. pose proof (redis_wait_hashes s) as E.
+  split; [apply (rr_ref s r H)|rewrite E; apply (rr_nodup s r H)|].
+  intros id. eapply redis_rep_other; [rewrite E; reflexivity|reflexivity|apply (rr_rep s r H id)].
+Qed.
+
+(* results of the storage operations of a run with wait() calls in between *)
+Fixpoint op_results (its : list ritem) (xs : list res) : list res :=
+  match its, xs with
+  | RIop _ :: its', x :: xs' => x :: op_results its' xs'
+  | RIwait :: its', _ :: xs' => op_results its' xs'
+  | _, _ => []
+  end.
+
+Theorem refines_redis_items its : forall s r,
+  RRedis s r -> wf_ops r (ritem_ops its) = true ->
+  RRedis (fst (redis_run_items s its)) (fst (ref_run r (ritem_ops its))) /\
+  Forall2 res_match (op_results its (snd (redis_run_items s its))) (snd (ref_run r (ritem_ops its))).
+Proof.
+  induction its as [|it its IH]; intros s r HR Hwf; cbn [redis_run_items ritem_ops].
+  - cbn [ref_run fst snd op_results]. split; [exact HR|constructor].
+  - destruct it as [o|]; cbn [ritem_step ritem_ops].
+    + cbn [wf_ops] in Hwf. apply andb_prop in Hwf as [Hw1 Hw2]. cbn [ref_run].
+      destruct (redis_step_sim s r o HR Hw1) as [HR1 Hm].
+      destruct (redis_step s o) as [s1 x]. destruct (ref_step r o) as [r1 y]. cbn [fst snd] in *.
+      destruct (IH s1 r1 HR1 Hw2) as [HR2 Hms].
+      destruct (redis_run_items s1 its) as [s2 xs]. destruct (ref_run r1 (ritem_ops its)) as [r2 ys].
+      cbn [fst snd op_results] in *. split; [exact HR2|constructor; assumption].
+    + pose proof (RRedis_wait s r HR) as HR1.
+      destruct (run rexec redis_wait s) as [s1 x]. cbn [fst] in HR1.
+      destruct (IH s1 r HR1 Hwf) as [HR2 Hms].
+      destruct (redis_run_items s1 its) as [s2 xs]. cbn [fst snd op_results] in *. split; assumption.
+Qed.
+
+(* what wait() itself returns: the announcements in the order of the writes *)
+Lemma redis_wait_fifo s x q :
+  r_queue s = x :: q -> run rexec redis_wait s = (mkRedis (r_hashes s) q, RLoad [x]).
+Proof. intros E. cbn [redis_wait run rexec]. rewrite E. reflexivity. Qed.
+
+Lemma redis_write_announces s r e ts cands tmps id :
+  RRedis s r -> snd (redis_step s (OWrite e ts cands tmps)) = RId id ->
+  r_queue (fst (redis_step s (OWrite e ts cands tmps))) = r_queue s ++ [(ts, id)].
+Proof.
+  intros H. unfold redis_step. cbn [redis_prog]. rewrite (r_write_run s r e ts cands H).
+  destruct (first_free r cands); cbn [fst snd r_queue]; [|discriminate]. intros E; inversion E; reflexivity.
 Qed.
 
 (* ================================================================= Cloud *)
